@@ -7,6 +7,7 @@ import Driver.ObjCmd
 import Driver.OrdCmd
 import Driver.UeqCmd
 import Driver.CanonCmd
+import Driver.MappedCmd
 /-!
 Line-protocol driver: one request per line on stdin, one reply per line on stdout.
 The first word selects the model component; see DESIGN.md §2.4.
@@ -23,6 +24,7 @@ def handle (line : String) : String :=
   | "ord" :: args => ordCmd args
   | "ueq" :: args => ueqCmd args
   | "canon" :: args => canonCmd args
+  | "mapped" :: args => mappedCmd args
   | _ => "bad-op"
 
 partial def loop (hin : IO.FS.Stream) (hout : IO.FS.Stream) : IO Unit := do
